@@ -151,9 +151,9 @@ class EEMSWrite(SameArrayShapeMixin, Command):
 
                         break
 
-            mask = numpy.copy(arrays[0].mask)
+            mask = numpy.copy(numpy.ma.getmaskarray(arrays[0]))
             for arr in arrays[1:]:
-                mask |= arr.mask
+                mask |= numpy.ma.getmaskarray(arr)
 
             for command in commands:
                 variable = dataset.createVariable(
